@@ -76,6 +76,7 @@ def witness0 : Globals where
   b64 := fun _ => []
   ReadFile := fun _ => none
   b64dec := fun _ => none
+  WriteFile := fun _ _ _ => true
   eagerRedactionPaths := []
   UnmarshalOrdered := fun bs => if bs = utf8 witnessLine then some witnessEntry else parseObj bs
   redactFieldNamesFromPlanSummary := redactPlan "REDACTED".toList
